@@ -494,6 +494,33 @@ func TestDriveC19(t *testing.T) {
 			rec.Emit(Ev{"ev": "Call", "mode": kind + ":" + m, "timeout": 2000, "dur": int(dur / time.Millisecond),
 				"outcome": outcome, "outlen": 0, "trimmed": true, "sample": val})
 		}
+		// two activities use the same command fan at the same time (RPM monitor and control loop are two goroutines): a
+		// command of one of them that hangs must not make the other's call take longer than its own deadline allows
+		{
+			setMode("sleep")
+			cf2, err := fans.NewFan(configuration.FanConfig{ID: uniq("c19cf"), Curve: "none", Cmd: &configuration.CmdFanConfig{
+				SetPwm: &configuration.ExecConfig{Exec: wrap, Args: []string{"%pwm%"}}, GetPwm: &configuration.ExecConfig{Exec: wrap},
+				GetRpm: &configuration.ExecConfig{Exec: wrap}}})
+			must(err)
+			best := time.Hour
+			outcome := "ok"
+			for try := 0; try < 3 && best > 2900*time.Millisecond; try++ {
+				doneA := make(chan struct{})
+				go func() { _, _ = cf2.GetRpm(); close(doneA) }()
+				time.Sleep(100 * time.Millisecond)
+				oc, d := guarded(12*time.Second, func() error { _, e := cf2.GetPwm(); return e })
+				<-doneA
+				if oc == "hung" || oc == "panic" {
+					outcome, best = oc, d
+					break
+				}
+				outcome = oc
+				if d < best {
+					best = d
+				}
+			}
+			emit("fan.concurrent", "sleep", outcome, best, "")
+		}
 		r := rand.New(rand.NewSource(int64(envInt("VERIF_SEED", 1))))
 		for seq := 0; seq < 3+reps; seq++ {
 			s, err := sensors.NewSensor(configuration.SensorConfig{ID: uniq("c19s"), Cmd: &configuration.CmdSensorConfig{Exec: wrap}})
